@@ -41,6 +41,18 @@ func (r *chunkReader) Read(p []byte) (int, error) {
 		return 0, nil
 	}
 	if len(r.data) == 0 {
+		// idle reads listed after the last byte: (0, nil) for every "z" still in the size list, then the end.
+		// Not for a transport that returned its last bytes together with the error: nothing is read after that.
+		if !r.withData && r.rep == 0 {
+			for r.i < len(r.sizes) {
+				sz := r.sizes[r.i]
+				r.i++
+				if sz < 0 {
+					r.empties++
+					return 0, nil
+				}
+			}
+		}
 		if r.fail {
 			return 0, errFail
 		}
